@@ -87,9 +87,48 @@ def run_variant(pid: str, name: str, edits, expect: str, rule: str | None, base:
         shutil.rmtree(d, ignore_errors=True)
 
 
+def run_seed(pid: str, name: str, base: str) -> dict:
+    """A confirmed seeded change (independent sub-agent, see /verif/seeded/<name>/meta.json) that breaks this property: the
+    check must report it.  The patch is applied to a scratch copy with patch(1); a patch that no longer applies is skipped."""
+    d = tempfile.mkdtemp(prefix=f"sa-seed-{pid}-")
+    try:
+        shutil.copytree(os.path.join(base, "src"), os.path.join(d, "src"), ignore=shutil.ignore_patterns("__pycache__", "*.pyc", "*.so"))
+        r = subprocess.run(["patch", "-p1", "-s", "-i", os.path.join(VERIF, "seeded", name, "patch.diff")], cwd=d, capture_output=True, text=True)
+        if r.returncode != 0:
+            return {"name": f"seed {name}", "expect": "fire", "status": "skipped", "why": "patch no longer applies to the current tree"}
+        env = dict(os.environ, VERIF_REPO=d, VERIF_EVIDENCE_DIR=os.path.join(d, "evidence"), VERIF_TIER="quick")
+        rr = subprocess.run(["/venv/bin/python", "-B", "-m", "sa.main", pid, "--tier", "quick"], cwd=VERIF, env=env, capture_output=True, text=True, timeout=600)
+        rules = sorted({l.strip().split(" @ ")[0] for l in rr.stdout.splitlines() if " @ " in l and l.strip().startswith(pid + "/")})
+        res = {"name": f"seed {name}", "expect": "fire", "rc": rr.returncode, "rules": rules}
+        res["status"] = "ok" if rr.returncode in (1, 2) else "MISSED"
+        if res["status"] != "ok":
+            res["output"] = (rr.stdout + rr.stderr)[-1500:]
+        return res
+    finally:
+        shutil.rmtree(d, ignore_errors=True)
+
+
+def seeds_for(pid: str) -> list[str]:
+    out = []
+    sd = os.path.join(VERIF, "seeded")
+    if os.path.isdir(sd):
+        for name in sorted(os.listdir(sd)):
+            mp = os.path.join(sd, name, "meta.json")
+            if os.path.exists(mp):
+                try:
+                    meta = json.load(open(mp))
+                except ValueError:
+                    continue
+                hit = [x for x in meta.get("detected_by", []) if x.startswith(pid + ":")]
+                if meta.get("breaks_property") == pid or hit:
+                    out.append(name)
+    return out
+
+
 def run_matrix(pid: str, variants: list[dict], base: str = REPO, jobs: int = 16) -> list[dict]:
     with ThreadPoolExecutor(max_workers=jobs) as ex:
         futs = [ex.submit(run_variant, pid, v["name"], v["edits"], v["expect"], v.get("rule"), base) for v in variants]
+        futs += [ex.submit(run_seed, pid, name, base) for name in seeds_for(pid)]
         return [f.result() for f in futs]
 
 
